@@ -529,3 +529,6 @@ _A3 = "                    a = displacement + a_correction\n                    
 for _pid, _rid in (("C04", "R04.3"), ("C02", "R02.3")):
     V(_pid, "periodic-image correction left outside the multiplier (3D builder)", _rid, (PFD, _A3, "                    a = multiplier * displacement + a_correction\n"))
     V(_pid, "twin: multiplier applied in one expression", "silent", (PFD, _A3, "                    a = multiplier * (displacement + a_correction)\n"))
+for _pid, _rid in (("C03", "R03.9"), ("C04", "R04.3"), ("C02", "R02.3")):
+    V(_pid, "image-label difference of the correction reversed (3D builder)", _rid, (PFD, _DOT_OLD, _DOT_OLD.replace("(-np.array(node_factor) + np.array(i_factor)), orig_cell", "(np.array(node_factor) - np.array(i_factor)), orig_cell")))
+    V(_pid, "twin: image-label difference written neighbour minus node", "silent", (PFD, _DOT_OLD, _DOT_OLD.replace("(-np.array(node_factor) + np.array(i_factor)), orig_cell", "(np.array(i_factor) - np.array(node_factor)), orig_cell")))
